@@ -266,7 +266,8 @@ public:
         requires(detail::is_transparent_v<key_compare>)
     [[nodiscard]] constexpr auto count(K const& x) const -> size_type
     {
-        return contains(x) ? 1 : 0;
+        // a heterogeneous key may be equivalent to several elements
+        return static_cast<size_type>(upper_bound(x) - lower_bound(x));
     }
 
     /// \brief Finds an element with key equivalent to key.
